@@ -74,13 +74,21 @@ class C03(Check):
         exe = ctx.sc.path('c04heap')
         if not os.path.exists(exe):
             cbuild.link(ctx.sc, ctx.objs, [os.path.join(VERIF, 'harness', 'c04heap.c')], exe, ctx.cfl + ['-I' + os.path.join(REPO, 'src')] + C4.WRAP)
-        singles = [g[0] for g in C4.heap_groups(ctx, ctx.sc.path('c03files')) if len(g) == 1 and not g[0].startswith('err ')]
+        allg = C4.heap_groups(ctx, ctx.sc.path('c03files'))
+        singles = [g[0] for g in allg if len(g) == 1 and not g[0].startswith('err ')]
+        keep = [g for g in allg if len(g) == 1 and g[0].startswith('err ') and int(g[0].split(' ')[1]) >= 6]
         groups = [[l] for l in singles] + [['N:' + l] for l in singles]
         res = C4.run_heap(ctx, exe, groups)
+        kres = C4.run_heap(ctx, exe, keep)
         def parse(a):
             m = re.match(r'(-?\d+) d=(\S+) e=(\d) c=(-?\d+) m=(-?\d+) v=(\S+)', a)
             return None if not m else dict(rc=int(m.group(1)), e=int(m.group(3)), c=int(m.group(4)), m=int(m.group(5)), v=m.group(6))
         viol = []; ok = fail = 0; kinds = {}
+        for i, g in enumerate(keep):
+            got, died = kres.get(i, ([], 'not run'))
+            if died is not None or not got or not got[0].startswith('1 '):
+                viol.append(dict(key=g[0], got=(got[0] if got else str(died)[-200:]), expected='1: the slot still holds the first error object, unchanged',
+                                 what='a later failing call replaced / changed an error that was already stored in the slot (no call stores an error over an existing one)'))
         n = len(singles)
         for i, l in enumerate(singles):
             (ga, da), (gb, db) = res.get(i, ([], 'not run')), res.get(n + i, ([], 'not run'))
